@@ -245,7 +245,10 @@ void ed_read_bin(ed_t a, const uint8_t *bin, size_t len) {
 				RLC_THROW(ERR_NO_VALID);
 				break;
 		}
-		ed_upk(a, a);
+		if (!ed_upk(a, a) || (bin[0] == 3 && fp_is_zero(a->x))) {
+			RLC_THROW(ERR_NO_VALID);
+			return;
+		}
 	}
 
 	if (len == 2 * RLC_FP_BYTES + 1) {
@@ -255,6 +258,11 @@ void ed_read_bin(ed_t a, const uint8_t *bin, size_t len) {
 			RLC_THROW(ERR_NO_VALID);
 			return;
 		}
+	}
+	/* The neutral element has the one-byte encoding only. */
+	if (fp_is_zero(a->x) && fp_cmp_dig(a->y, 1) == RLC_EQ) {
+		RLC_THROW(ERR_NO_VALID);
+		return;
 	}
 #if ED_ADD == EXTND
 	fp_mul(a->t, a->x, a->y);
